@@ -982,7 +982,7 @@ def abstract_option_run(model: Model, fi: FuncInfo, watch_calls=()):
     """Abstract evaluation (domains/dictsem.py) of the dictionary statements of a function that receives forward options (a parameter
     or **kwargs named fwd_options / options) and possibly `bck_options`.  Returns (environment at the end, {watched call: abstract
     value of its ** splat at the moment of the call}, the initial forward / backward dictionaries)."""
-    from ..domains.dictsem import DictInterp, ADict, Unsupported, Raised, _Return
+    from ..domains.dictsem import DictInterp, ADict, Unsupported, Raised, _Return, OtherToken
     helpers = {}
     try:
         misc = model.module("xitorch/_utils/misc.py")
@@ -993,6 +993,13 @@ def abstract_option_run(model: Model, fi: FuncInfo, watch_calls=()):
         pass
 
     class _I(DictInterp):
+        def ev(self, e):
+            # a name the option statements never bound (an implementation, a tensor, ..) is an opaque value, not an obstacle: the
+            # arguments next to it (`config.pop("method")`) still have to be evaluated for their effect on the dictionaries
+            if isinstance(e, ast.Name) and e.id not in self.env:
+                return OtherToken()
+            return super().ev(e)
+
         def call(self, c):
             fn = ast.unparse(c.func).split(".")[-1]
             if fn in helpers and isinstance(c.func, ast.Name):
